@@ -160,6 +160,11 @@ def run(prop, seed, budget, ctx):
             if ALIASING: why.append("replace-shares-or-changes-the-set-of-the-original"); c["aliasing"] = list(ALIASING)
         if why: c["kind"] = "P"; c["why"] = why; failures.append(c); hist["P:" + why[0][:40]] += 1
         elif not k_ok: c["kind"] = "K"; c["why"] = "model and implementation disagree"; failures.append(c); kbad += 1
+    import corners8
+    c8f_, c8n_, c8d_, c8h_ = corners8.run_part("C15", seed, budget)
+    failures += c8f_; distinct |= c8d_
+    for k_, v_ in c8h_.items(): hist[k_] += v_
+    for f in c8f_: hist["P:" + f["why"][0].split(":")[0]] += 1
     import corners7
     cf_, cn_, cd_, ch_ = corners7.run_part("C15", seed, budget)
     failures += cf_; distinct |= cd_
